@@ -345,6 +345,12 @@ func vhC16Serve() {
 	}
 	_, isSession := sub.Client.(*Session)
 	verifAssert(isSession, "C16/Serve/client-is-the-session")
+	// a later request on another server that chooses no topics is still subscribed to the
+	// default topic, whatever this session's OnSession chose
+	rec2 := &vhRec{h: http.Header{}, failAt: -1}
+	prov2 := &vhProvider{rec: rec2}
+	(&Server{Provider: prov2}).ServeHTTP(vhWFlusher{vhWPlain{rec2}}, &http.Request{Header: http.Header{}})
+	verifAssert(len(prov2.subs) == 1 && len(prov2.subs[0].Topics) == 1 && prov2.subs[0].Topics[0] == "" && DefaultTopic == "", "C16/Serve/later-session-still-gets-the-default-topic")
 	if prov.subErr != nil {
 		verifAssert(got500, "C16/Serve/500-when-provider-refuses-before-anything-was-sent")
 		verifCover("C16/Serve/subscribe-error")
